@@ -105,20 +105,31 @@ def _add_accessible():
     return find_func(find_class(parse(MB), 'Module'), '_add_accessible')
 
 
-def add_accessible_hides_and_registers_before_cfg():
-    """_add_accessible: `if not self.export: accessible.export = False`, then
-    `if accessible.export: self.accessiblename2attr[accessible.export] = name`, and only afterwards the configured
-    properties are applied with accessible.setProperty (the order the model reproduces)"""
+def add_accessible_registers_final_export():
+    """_add_accessible: the configured properties are applied first (accessible.setProperty), then
+    `if not self.export: accessible.export = False`, `accessible.fixExport()`, and only then
+    `if accessible.export:` a name already in accessiblename2attr is a configuration error (self.errors) and the name is
+    registered; this is the only assignment to accessiblename2attr[...] in the class"""
     f = _add_accessible()
-    hide = _first_line(f, lambda n: isinstance(n, ast.If) and _norm(n.test) == 'notself.export'
-                       and _norm(n.body[0]) == 'accessible.export=False', 'module-level hiding')
-    reg = _first_line(f, lambda n: isinstance(n, ast.If) and _norm(n.test) == 'accessible.export'
-                      and _norm(n.body[0]) == 'self.accessiblename2attr[accessible.export]=name', 'registration')
     cfg = _first_line(f, lambda n: isinstance(n, ast.Expr) and _norm(n) == 'accessible.setProperty(propname,propvalue)',
                       'application of configured properties')
+    hide = _first_line(f, lambda n: isinstance(n, ast.If) and _norm(n.test) == 'notself.export'
+                       and _norm(n.body[0]) == 'accessible.export=False', 'module-level hiding')
+    fix = _first_line(f, lambda n: isinstance(n, ast.Expr) and _norm(n) == 'accessible.fixExport()', 'fixExport call')
+
+    def is_reg(n):
+        return (isinstance(n, ast.If) and _norm(n.test) == 'accessible.export' and len(n.body) == 2
+                and isinstance(n.body[0], ast.If) and _norm(n.body[0].test) == 'accessible.exportinself.accessiblename2attr'
+                and _norm(n.body[0].body[0]).startswith('self.errors.append(') and not n.body[0].orelse
+                and _norm(n.body[1]) == 'self.accessiblename2attr[accessible.export]=name')
+    reg = _first_line(f, is_reg, 'duplicate test + registration')
     regs = [n for n in ast.walk(find_class(parse(MB), 'Module')) if isinstance(n, ast.Subscript)
             and isinstance(n.ctx, ast.Store) and is_self_attr(n.value, 'accessiblename2attr')]
-    return 'bool', cbool(hide < reg < cfg and len(regs) == 1)
+    # errors collected in self.errors make Module.__init__ raise ConfigError
+    init = _module_init()
+    raises = any(isinstance(n, ast.If) and _norm(n.test) == 'self.errors' and isinstance(n.body[0], ast.Raise)
+                 and 'ConfigError(self.errors)' in _norm(n.body[0]) for n in init.body)
+    return 'bool', cbool(cfg < hide < fix < reg and len(regs) == 1 and raises)
 
 
 def finish_calls_class_constant():
@@ -175,12 +186,13 @@ def main_unit_after_cfg_and_dollar_replace():
 
 # ------------------------------------------------------------------ the report
 def export_properties_nondefault_rule():
-    """HasProperties.exportProperties: listed iff po.export and (po.export == 'always' or val != po.default), under extname"""
+    """HasProperties.exportProperties: listed iff po.export and (po.export == 'always' or po.mandatory or val != po.default),
+    under extname (group and visibility are not mandatory: see property_export_table)"""
     f = find_func(find_class(parse(PR), 'HasProperties'), 'exportProperties')
     ifs = [n for n in walk_type(f, ast.If) if 'po.export' in _norm(n.test)]
     if len(ifs) != 1:
         raise Shape('exportProperties: export test not found')
-    ok = _norm(ifs[0].test) == "po.exportand(po.export=='always'orval!=po.default)"
+    ok = _norm(ifs[0].test) == "po.exportand(po.export=='always'orpo.mandatoryorval!=po.default)"
     ok = ok and any(_norm(a) == 'res[po.extname]=val' for a in walk_type(ifs[0], ast.Assign))
     ok = ok and any(_norm(a) == 'val=self.propertyValues.get(pn,po.default)' for a in walk_type(f, ast.Assign))
     return 'bool', cbool(ok)
@@ -202,6 +214,9 @@ def property_export_table():
             exp = const(kw['export']) if 'export' in kw else None
             ok = ok and ((exp == 'always') == always) and 'extname' in kw
         ok = ok and const(_prop_kw(cls, 'group')['default']) == '' and const(_prop_kw(cls, 'visibility')['default']) == 1
+        for name in ('group', 'visibility'):          # a default is given and mandatory is not: listed only when not default
+            kw = _prop_kw(cls, name)
+            ok = ok and 'default' in kw and ('mandatory' not in kw or const(kw['mandatory']) is False)
         ok = ok and const(_prop_kw(cls, 'export')['export']) is False and const(_prop_kw(cls, 'export')['default']) is True
         ok = ok and const(_prop_kw(cls, 'datatype')['extname']) == 'datainfo'
     kw = _prop_kw('Parameter', 'readonly')
@@ -215,6 +230,9 @@ def property_export_table():
     kw = _prop_kw('Module', 'export', MB)
     ok = ok and const(kw['export']) is False and const(kw['default']) is True
     ok = ok and const(_prop_kw('Module', 'group', MB)['default']) == '' and const(_prop_kw('Module', 'visibility', MB)['default']) == 'user'
+    for name in ('group', 'visibility'):
+        ok = ok and 'mandatory' not in _prop_kw('Module', name, MB)
+    ok = ok and 'mandatory' not in _prop_kw('Parameter', 'constant')
     for name in ('implementation', 'interface_classes', 'features'):
         ok = ok and const(_prop_kw('Module', name, MB)['extname']) == name
     return 'bool', cbool(ok)
@@ -292,12 +310,12 @@ def change_path_shape():
 
 
 def read_path_shape():
-    """_getParameterValue: a constant is answered with datatype.export_value(pobj.constant) (a bare value, no qualifiers),
-    otherwise read_<pname>() then (pobj.export_value(), qualifiers); handle_read wraps the result in list(...)"""
+    """_getParameterValue: a constant is answered with (pobj.constant, {}) (the property holds the exported value),
+    otherwise read_<pname>() then (pobj.export_value(), qualifiers); handle_read wraps the pair in list(...)"""
     f = _disp('_getParameterValue')
     ok = _lookup_ok(f, 'parameters', 'NoSuchParameterError')
     cs = [n for n in f.body if isinstance(n, ast.If) and _norm(n.test) == 'pobj.constantisnotNone']
-    ok = ok and len(cs) == 1 and _norm(cs[0].body[-1]) == 'returnpobj.datatype.export_value(pobj.constant)'
+    ok = ok and len(cs) == 1 and _norm(cs[0].body[-1]) == 'return(pobj.constant,{})'
     ok = ok and any(_norm(n) == "getattr(moduleobj,'read_'+pname)()" for n in f.body)
     ok = ok and _norm(f.body[-1]).startswith('return(pobj.export_value(),')
     h = _disp('handle_read')
@@ -356,7 +374,7 @@ def announce_update_shape():
 
 
 FACTS = [predefined_accessibles, secop_base_classes, interface_classes_limit, features_from_direct_feature_bases,
-         fixexport_shape, add_accessible_hides_and_registers_before_cfg, finish_calls_class_constant,
+         fixexport_shape, add_accessible_registers_final_export, finish_calls_class_constant,
          finish_reexports_constant, main_unit_after_cfg_and_dollar_replace, export_properties_nondefault_rule,
          property_export_table, for_export_shapes, export_accessibles_shape, change_path_shape, read_path_shape,
          do_path_shape, activate_path_shape, announce_update_shape]
